@@ -20,10 +20,12 @@ pub const FILES: [&str; 4] = ["/p/a.graphql", "/p/b.graphql", "/p/c.graphql", "/
 pub const SOURCES: [(&str, &[&str], bool); 8] = [
     ("query Q { a }\n", &[], true),
     ("#import F from \"./b.graphql\"\nquery Q { a ...F }\n", &["/p/b.graphql"], true),
-    ("fragment F on T { x }\n", &[], true),
+    // three sources are multi-line CR LF texts (a checkout with autocrlf): a buffer that a line-end normalisation
+    // would shrink, also for a root file that does not parse
+    ("fragment F on T {\r\n  x\r\n}\r\n", &[], true),
     ("#import * from \"./a.graphql\"\nfragment F on T { x }\n", &["/p/a.graphql"], true),
-    ("query Q { a ", &[], false),
-    ("#import * from \"./c.graphql\"\n#import * from \"./b.graphql\"\nquery R { r }\nfragment G on T { y }\n", &["/p/c.graphql", "/p/b.graphql"], true),
+    ("query Q {\r\n  a\r\n", &[], false),
+    ("#import * from \"./c.graphql\"\r\n#import * from \"./b.graphql\"\r\nquery R {\r\n  r\r\n}\r\nfragment G on T { y }\r\n", &["/p/c.graphql", "/p/b.graphql"], true),
     // same names as 2 and 0 with other bodies: re-supplying a file changes the module (explicit-call families only)
     ("fragment F on T { y z }\n", &[], true),
     ("query Q { b }\n", &[], true),
